@@ -83,7 +83,7 @@ theorem crash_in_window_raises (cfg : Cfg) (M : Manifest) (m : Mem) (c : Choice)
   have hk' : (loopEffs cfg m c d).length ≤ k := by rw [hk]; unfold restartIdx; omega
   have hr1 : (run (loopEffs cfg m c d) d).restart = .complete r0 := by
     rw [(run_frame hown d).2.2.1]; exact hr0
-  obtain ⟨_, _, _, _, t5⟩ := tail_spec c cfg.variant (newRec m c) r0 _ hr1
+  obtain ⟨_, _, _, _, t5, _⟩ := tail_spec c cfg.variant (newRec m c) r0 _ hr1
     (k - (loopEffs cfg m c d).length) half
   rw [crash_split_ge cfg m c d k half hk']
   apply outcome_raises_of_torn
@@ -158,16 +158,18 @@ theorem step_inv (cfg : Cfg) (M : Manifest) (m : Mem) (c : Choice) (d : Disk)
     simp only [stepMem, newRec]
     split <;> omega
 
-/-- **crash_restore_inv_partial**: outside the row window, whatever complete record a crash
-    leaves behind, the state restored from it is consistent with the disk: all paths loaded,
-    data rows unique and disjoint from the live set, delete queue empty. -/
-theorem crash_restore_inv_partial (cfg : Cfg) (M : Manifest) (m : Mem) (c : Choice) (d : Disk)
+/-- the state a restart works on: memory restored from the record, data file cleaned by
+    `clean_data_file` (if the code does that).  Whenever the code cleans on restart OR the crash
+    point is outside the row window, that state satisfies the full invariant. -/
+theorem crash_restore_inv_gen (cfg : Cfg) (M : Manifest) (m : Mem) (c : Choice) (d : Disk)
     (hI : Inv M m d) (hW : WF cfg M m c d) (k : Nat) (half : Bool)
-    (hwin : inRowWindow cfg m c d k half = false) (r : Rec)
+    (hok : cfg.cleanOnRestart = true ∨ inRowWindow cfg m c d k half = false) (r : Rec)
     (hr : (crashStep cfg m c d k half).restart = .complete r) :
-    Inv M (restore M r (crashStep cfg m c d k half).files) (crashStep cfg m c d k half) := by
+    Inv M (restore M r (crashStep cfg m c d k half).files)
+      (restoreDisk cfg r (crashStep cfg m c d k half)) := by
   by_cases hk : (stepEffs cfg m c d).length ≤ k
-  · obtain ⟨hn, hf, hd⟩ := crash_complete cfg M m c d hI hW k half hk
+  · -- the step is complete: new record; cleaning changes nothing
+    obtain ⟨hn, hf, hd⟩ := crash_complete cfg M m c d hI hW k half hk
     have : r = newRec m c := by rw [hn] at hr; injection hr with h; exact h.symm
     subst this
     have hfl : ∀ p ∈ c.newLive, pathOK (crashStep cfg m c d k half).files p = true := by
@@ -176,14 +178,25 @@ theorem crash_restore_inv_partial (cfg : Cfg) (M : Manifest) (m : Mem) (c : Choi
       simp only [restore, newRec]
       exact filterMap_load M _ c.newLive (fun p hp =>
         loadPath_of_pathOK M _ p (hfl p hp) ((new_live_facts cfg M m c d hI hW).1 p hp).2)
-    refine new_state_inv cfg M m _ c d _ hI hW hn hf hd rfl hlive rfl ?_ ?_
-    · intro o ho; simp [restore] at ho
-    · intro R hR; simp [restore] at hR ⊢; omega
+    have hinv : Inv M (restore M (newRec m c) (crashStep cfg m c d k half).files)
+        (crashStep cfg m c d k half) := by
+      refine new_state_inv cfg M m _ c d _ hI hW hn hf hd rfl hlive rfl ?_ ?_
+      · intro o ho; simp [restore] at ho
+      · intro R hR; simp [restore] at hR ⊢; omega
+    have hsame : restoreDisk cfg (newRec m c) (crashStep cfg m c d k half) = crashStep cfg m c d k half := by
+      unfold restoreDisk
+      split
+      · have hrows := hinv.rows
+        rw [hlive] at hrows
+        have : (newRec m c).active = pns c.newLive := rfl
+        rw [this, cleanData_of_rowsOK _ _ hrows]
+      · rfl
+    rw [hsame]; exact hinv
   · obtain ⟨r0, hr0, hcl⟩ := crash_incomplete cfg M m c d hI hW k half (Nat.lt_of_not_le hk)
     obtain ⟨r', hr', hcs, hact, htn, _⟩ := hI.record
     have hrr : r' = r0 := by rw [hr'] at hr0; injection hr0
     subst hrr
-    rcases hcl with ⟨ho, hd⟩ | ⟨_, _, ht⟩
+    rcases hcl with ⟨ho, hd, n, hrows, hg⟩ | ⟨_, _, ht⟩
     · have : r = r' := by rw [ho] at hr; injection hr with h; exact h.symm
       subst this
       have hsafe := old_live_safe cfg M m c d hI hW k half
@@ -191,25 +204,65 @@ theorem crash_restore_inv_partial (cfg : Cfg) (M : Manifest) (m : Mem) (c : Choi
         simp only [restore, hact, pns]
         exact filterMap_load M _ m.live (fun p hp =>
           loadPath_of_pathOK M _ p (hsafe p hp) (hI.live_ok p hp).2.2)
-      refine old_state_inv M m _ d _ hI r hr' ho hsafe (hd hwin) ?_ hlive ?_ rfl ?_
+      have hdata : (restoreDisk cfg r (crashStep cfg m c d k half)).data = d.data := by
+        unfold restoreDisk
+        by_cases hc : cfg.cleanOnRestart = true
+        · rw [if_pos hc]
+          show cleanData _ r.active = d.data
+          rw [hact]
+          refine cleanData_of_extra d.data _ (pns m.live) _ hI.rows hrows hg ?_
+          intro q hq
+          obtain ⟨a, ha, rfl⟩ := List.mem_map.1 (List.mem_of_mem_take hq)
+          exact List.mem_map_of_mem (hW.old_live a ha)
+        · rw [if_neg hc]
+          rcases hok with h | h
+          · exact absurd h hc
+          · exact hd h
+      have hfiles : (restoreDisk cfg r (crashStep cfg m c d k half)).files = (crashStep cfg m c d k half).files := by
+        unfold restoreDisk; split <;> rfl
+      have hrest : (restoreDisk cfg r (crashStep cfg m c d k half)).restart = .complete r := by
+        unfold restoreDisk; split <;> exact ho
+      refine old_state_inv M m _ d _ hI r hr' hrest (by rw [hfiles]; exact hsafe) hdata ?_ hlive ?_ rfl ?_
       · simp [restore, hcs]
       · simp [restore, htn]
       · intro R hR; simp [restore] at hR ⊢; omega
     · rcases ht with ht | ht <;> rw [ht] at hr <;> cases hr
 
+/-- **crash_restore_inv** (the code as it is now: `clean_data_file` on restart): after a crash at
+    ANY point of ANY step — including the window in which the data row is written and the restart
+    file is not — whatever complete record is on disk, the state a restart works on satisfies the
+    full invariant: all paths loaded, data rows whole, unique and disjoint from the live set. -/
+theorem crash_restore_inv (cfg : Cfg) (M : Manifest) (m : Mem) (c : Choice) (d : Disk)
+    (hI : Inv M m d) (hW : WF cfg M m c d) (hclean : cfg.cleanOnRestart = true) (k : Nat) (half : Bool)
+    (r : Rec) (hr : (crashStep cfg m c d k half).restart = .complete r) :
+    Inv M (restore M r (crashStep cfg m c d k half).files)
+      (restoreDisk cfg r (crashStep cfg m c d k half)) :=
+  crash_restore_inv_gen cfg M m c d hI hW k half (Or.inl hclean) r hr
 
-/-- everything that can happen after a (re)start: completed steps, and crashes at points outside
-    the two windows followed by a restart from the record on disk — any number of them, in any
-    order (double crashes, a crash right after a restart, …) -/
+/-- **crash_restore_inv_partial** (historical restart without `clean_data_file`): the same outside
+    the row window. -/
+theorem crash_restore_inv_partial (cfg : Cfg) (M : Manifest) (m : Mem) (c : Choice) (d : Disk)
+    (hI : Inv M m d) (hW : WF cfg M m c d) (k : Nat) (half : Bool)
+    (hwin : inRowWindow cfg m c d k half = false) (r : Rec)
+    (hr : (crashStep cfg m c d k half).restart = .complete r) :
+    Inv M (restore M r (crashStep cfg m c d k half).files)
+      (restoreDisk cfg r (crashStep cfg m c d k half)) :=
+  crash_restore_inv_gen cfg M m c d hI hW k half (Or.inr hwin) r hr
+
+/-- everything that can happen after a (re)start: completed steps, and crashes followed by a
+    restart from the record on disk — any number of them, in any order (double crashes, a crash
+    right after a restart, …).  With `clean_data_file` every crash point is allowed; without it
+    only those outside the row window. -/
 inductive Continues (cfg : Cfg) (M : Manifest) : Mem → Disk → Mem → Disk → Prop
   | refl (m : Mem) (d : Disk) : Continues cfg M m d m d
   | step {m d m' d'} (c : Choice) (hW : WF cfg M m c d)
       (h : Continues cfg M (stepMem cfg m c d) (run (stepEffs cfg m c d) d) m' d') :
       Continues cfg M m d m' d'
   | crashRestart {m d m' d'} (c : Choice) (hW : WF cfg M m c d) (k : Nat) (half : Bool) (r : Rec)
-      (hwin : inRowWindow cfg m c d k half = false)
+      (hok : cfg.cleanOnRestart = true ∨ inRowWindow cfg m c d k half = false)
       (hr : (crashStep cfg m c d k half).restart = .complete r)
-      (h : Continues cfg M (restore M r (crashStep cfg m c d k half).files) (crashStep cfg m c d k half) m' d') :
+      (h : Continues cfg M (restore M r (crashStep cfg m c d k half).files)
+            (restoreDisk cfg r (crashStep cfg m c d k half)) m' d') :
       Continues cfg M m d m' d'
 
 theorem continue_inv (cfg : Cfg) (M : Manifest) {m d m' d'} (hI : Inv M m d)
@@ -217,18 +270,31 @@ theorem continue_inv (cfg : Cfg) (M : Manifest) {m d m' d'} (hI : Inv M m d)
   induction h with
   | refl => exact hI
   | step c hW _ ih => exact ih (step_inv cfg M _ c _ hI hW)
-  | crashRestart c hW k half r hwin hr _ ih =>
-    exact ih (crash_restore_inv_partial cfg M _ c _ hI hW k half hwin r hr)
+  | crashRestart c hW k half r hok hr _ ih =>
+    exact ih (crash_restore_inv_gen cfg M _ c _ hI hW k half hok r hr)
 
-/-- **continue_rows_unique_partial**: crash at any point outside the row window, restart from
-    whatever complete record is on disk, continue in any way (steps, further crashes outside the
-    window + restarts): the data file has whole rows only, every path at most once, and no
-    live path — i.e. exactly the replaced paths, each once. -/
+/-- **continue_rows_unique** (the code as it is now): crash at ANY point of ANY step, restart
+    from whatever complete record is on disk, continue in ANY way (steps, further crashes at any
+    point + restarts): the data file has whole rows only, every path at most once, and no live
+    path — i.e. exactly the replaced paths, each once. -/
+theorem continue_rows_unique (cfg : Cfg) (M : Manifest) (m : Mem) (c : Choice) (d : Disk)
+    (hI : Inv M m d) (hW : WF cfg M m c d) (hclean : cfg.cleanOnRestart = true) (k : Nat) (half : Bool)
+    (r : Rec) (hr : (crashStep cfg m c d k half).restart = .complete r) (m' : Mem) (d' : Disk)
+    (hc : Continues cfg M (restore M r (crashStep cfg m c d k half).files)
+            (restoreDisk cfg r (crashStep cfg m c d k half)) m' d') :
+    d'.data.torn = false ∧ d'.data.garbled = 0 ∧ d'.data.rows.Nodup
+      ∧ ∀ p ∈ d'.data.rows, p ∉ pns m'.live := by
+  have h := continue_inv cfg M (crash_restore_inv cfg M m c d hI hW hclean k half r hr) hc
+  exact (rowsOK_iff _ _).1 h.rows
+
+/-- **continue_rows_unique_partial** (historical restart without `clean_data_file`): the same for
+    crash points outside the row window. -/
 theorem continue_rows_unique_partial (cfg : Cfg) (M : Manifest) (m : Mem) (c : Choice) (d : Disk)
     (hI : Inv M m d) (hW : WF cfg M m c d) (k : Nat) (half : Bool)
     (hwin : inRowWindow cfg m c d k half = false) (r : Rec)
     (hr : (crashStep cfg m c d k half).restart = .complete r) (m' : Mem) (d' : Disk)
-    (hc : Continues cfg M (restore M r (crashStep cfg m c d k half).files) (crashStep cfg m c d k half) m' d') :
+    (hc : Continues cfg M (restore M r (crashStep cfg m c d k half).files)
+            (restoreDisk cfg r (crashStep cfg m c d k half)) m' d') :
     d'.data.torn = false ∧ d'.data.garbled = 0 ∧ d'.data.rows.Nodup
       ∧ ∀ p ∈ d'.data.rows, p ∉ pns m'.live := by
   have h := continue_inv cfg M (crash_restore_inv_partial cfg M m c d hI hW k half hwin r hr) hc
@@ -285,8 +351,10 @@ def c0 : Choice :=
   { accs := [{ old := p1, cid := 9, files := [(40, 400), (41, 410)] }]
     newLive := [p0, p3, p2], locked' := [], inc := true, halfRows := 0, halfTorn := true }
 
-def cfgAsIs : Cfg := { n := 4, deleteOld := true, deleteAll := true, variant := .asIs }
-def cfgRep : Cfg := { cfgAsIs with variant := .repaired }
+/-- the code before ba0d066 / 05f8082: truncating write_toml, no clean_data_file -/
+def cfgAsIs : Cfg := { n := 4, deleteOld := true, deleteAll := true, variant := .asIs, cleanOnRestart := false }
+/-- the code as it is now (defaults: temp file + os.replace, clean_data_file on restart) -/
+def cfgRep : Cfg := { n := 4, deleteOld := true, deleteAll := true }
 
 theorem inv0 : Inv M m0 d0 where
   record := ⟨r0, rfl, rfl, rfl, rfl, by decide⟩
@@ -345,19 +413,68 @@ example : restartOutcome M .restartToml (crashStep cfgRep m0 c0 d0 13 false) = .
   decide
 
 open Witness in
-/-- **continue_rows_unique_counterexample** (code as it is, both variants of `write_toml`): crash
-    after the data row of the replaced path 1 has been appended and before restart.toml is
-    rewritten (k = 12).  The restart starts from the old record, in which path 1 is still live
-    while its row is already in the data file; redoing the step (the worker produces the same
-    trajectory files again, the move is accepted again) appends the row a second time. -/
+/-- **continue_rows_unique_counterexample** (historical restart WITHOUT `clean_data_file`, kept as
+    record of the repaired finding): crash after the data row of the replaced path 1 has been
+    appended and before restart.toml is rewritten (k = 12).  The restart starts from the old
+    record, in which path 1 is still live while its row is already in the data file; redoing the
+    step (the worker produces the same trajectory files again, the move is accepted again) appends
+    the row a second time. -/
 theorem continue_rows_unique_counterexample :
-    let d' := crashStep cfgAsIs m0 c0 d0 12 false
+    let d' := restoreDisk cfgAsIs r0 (crashStep cfgAsIs m0 c0 d0 12 false)
     let m' := restore M r0 d'.files
     let d'' : Disk := { d' with files := (d'.files.set (.wfile 40) (.complete 400)).set (.wfile 41) (.complete 410) }
     inRowWindow cfgAsIs m0 c0 d0 12 false = true
     ∧ restartOutcome M .restartToml d' = .starts r0
     ∧ rowsOK d'.data r0.active = false
     ∧ (run (stepEffs cfgAsIs m' c0 d'') d'').data.rows = [1, 1] := by
+  decide
+
+
+open Witness in
+/-- the same crash point with the code as it is now: `clean_data_file` drops the row of the still
+    active path 1 on restart; redoing the step writes it once.  Also a torn row (k = 11, half) is
+    dropped. -/
+example :
+    let d' := restoreDisk cfgRep r0 (crashStep cfgRep m0 c0 d0 12 false)
+    let m' := restore M r0 d'.files
+    let d'' : Disk := { d' with files := (d'.files.set (.wfile 40) (.complete 400)).set (.wfile 41) (.complete 410) }
+    inRowWindow cfgRep m0 c0 d0 12 false = true
+    ∧ (crashStep cfgRep m0 c0 d0 12 false).data.rows = [1]
+    ∧ rowsOK d'.data r0.active = true
+    ∧ (run (stepEffs cfgRep m' c0 d'') d'').data.rows = [1]
+    ∧ (crashStep cfgRep m0 c0 d0 11 true).data.torn = true
+    ∧ (restoreDisk cfgRep r0 (crashStep cfgRep m0 c0 d0 11 true)).data = d0.data := by
+  decide
+
+/-! ## stale files of an interrupted store -/
+
+/-- **delete_block_rmdir_safe** (since e7b75fb): with delete_old_all, when the delete block reaches
+    `os.rmdir(load/pn/accepted)` no entry of that directory exists any more — on ANY disk, in
+    particular one on which a store that was interrupted by a crash and redone after the restart
+    left a stale trajectory file that is not part of the path's `adress`. -/
+theorem delete_block_rmdir_safe (cfg : Cfg) (o : Old) (d : Disk) (h : cfg.deleteAll = true) :
+    ∃ pre, delEffs cfg o d = pre ++ [.rmdir (.acc o.pn), .rmdir (.pdir o.pn)]
+      ∧ ∀ n, (run pre d).files.get (.tfile o.pn n) = .absent := by
+  refine ⟨o.names.map (fun n => Effect.remove (.tfile o.pn n))
+      ++ delAllRemoves o (run (o.names.map (fun n => Effect.remove (.tfile o.pn n))) d), ?_, ?_⟩
+  · simp [delEffs, h, List.append_assoc]
+  · intro n
+    rw [run_append]
+    exact delAll_leaves_accepted_empty o _ n
+
+open Witness in
+/-- a crash inside `_move_path` (k = 9: first trajectory file of path 3 moved, second not), restart,
+    the redo stores path 3 under other file names (50, 51): file 40 stays behind in
+    load/3/accepted.  When path 3 is deleted later the block removes it before the rmdir. -/
+example :
+    let d' := crashStep cfgRep m0 c0 d0 9 false
+    let c1 : Choice := { c0 with accs := [{ old := p1, cid := 9, files := [(50, 400), (51, 410)] }] }
+    let d'' : Disk := { d' with files := (d'.files.set (.wfile 50) (.complete 400)).set (.wfile 51) (.complete 410) }
+    let d3 := run (stepEffs cfgRep (restore M r0 d'.files) c1 d'') d''
+    d'.files.get (.tfile 3 40) = .complete 400
+    ∧ d3.files.get (.tfile 3 40) = .complete 400       -- stale, not in the new path's adress
+    ∧ Effect.remove (.tfile 3 40) ∈ delEffs cfgRep { pn := 3, names := [50, 51] } d3
+    ∧ (run (delEffs cfgRep { pn := 3, names := [50, 51] } d3) d3).files.get (.tfile 3 40) = .absent := by
   decide
 
 end Infretis.C08
